@@ -4,8 +4,9 @@
   `==`, `hash` are thin in Lean (the code compares / hashes `str(self)`, the model says exactly that); the
   display clause `C19_eq_display` rests on `C01_display`.  The reflected comparison `s == f` reaching
   `FmtStr.__eq__` and `hash` of a str are CPython facts (correspondence only).
-  `C19_repr`: for every FmtStr with at least one run whose run texts contain no `ESC [` pair (such a literal
-  would be re-parsed by `fmtstr` when the repr is evaluated: C05/C17), `repr(f)` is an expression over string
+  `C19_repr_partial` (full statement `C19_repr_full_statement`; open finding D27 with `C19_repr_witness`): for every
+  FmtStr with at least one run whose run texts contain no `ESC [` pair (such a literal IS re-parsed by `fmtstr`
+  when the repr is evaluated - the model's evaluator uses the real `from_str` model), `repr(f)` is an expression over string
   literals, `+` and the fmtfuncs names of the REGENERATED table, and evaluating it gives a value (a FmtStr, or
   a plain str when nothing is formatted) with the same characters and the same displayed formatting.
   `lower` (str.lower) only has to leave the lower-case helper names alone (`LowerOk`; `idl` does).
@@ -13,6 +14,7 @@
 import Curtsies.Model.Repr
 import Curtsies.Properties.C01
 import Curtsies.Properties.C14
+import Curtsies.Generated.EscParse
 namespace Curtsies
 open Spec
 
@@ -24,10 +26,12 @@ theorem C19_eq (f g : FmtStr) :
   simp [fmtEqObj, fmtEq]
 
 /-- `f == s` for a plain str is "the terminal string is that str"; with the operands swapped Python calls
-    the same method (`eqStr` is symmetric by construction); any other object: NotImplemented. -/
+    the same method (`eqStr` is symmetric by construction); a `bytes` operand is accepted as well and compared
+    through `str(other)` (its repr text `b'...'`); any other object: NotImplemented.
+    (`C19_eq` / `C19_str` are definitional: the model says what the code says; the correspondence carries them.) -/
 theorem C19_str (f : FmtStr) (s : Text) :
     fmtEqObj f (.str s) = some (decide (render f = s)) ∧ (eqStr f s = true ↔ render f = s) ∧
-    fmtEqObj f .other = none := by
+    fmtEqObj f (.bytes s) = some (decide (render f = s)) ∧ fmtEqObj f .other = none := by
   simp [fmtEqObj, eqStr]
 
 /-- `==` on FmtStrs is an equivalence relation (what dict/set membership needs besides the hash law). -/
@@ -186,9 +190,9 @@ theorem namedAtts_good {lower : String → String} (hl : LowerOk lower) (a : Att
     · simp at hp; subst hp; exact st ("underline", .underline) (by decide)
     · simp at hp
 
-theorem eval_wrap (lower : String → String) (s : Text) (hs : hasEscLBracket s = false)
+theorem eval_wrap (md : Nat) (lower : String → String) (s : Text) (hs : hasEscBracket s = false)
     (L : List (String × Atts)) (hg : ∀ p ∈ L, Good lower p) :
-    evalExpr lower (wrapCalls (L.map Prod.fst) (.lit s))
+    evalExpr md lower (wrapCalls (L.map Prod.fst) (.lit s))
       = some (if L.isEmpty then .str s else .fmt [⟨s, accL L⟩]) := by
   induction L with
   | nil => simp [wrapCalls, evalExpr]
@@ -200,14 +204,14 @@ theorem eval_wrap (lower : String → String) (s : Text) (hs : hasEscLBracket s 
     have hacc : accL (p :: rest) = (accL rest).extend p.2 := rfl
     cases rest with
     | nil =>
-      simp [callFmtfunc, hb, hs, fmtfuncApply, fmtstrApply, hp, copyWithNewAtts, accL]
+      simp [callFmtfunc, hb, fromStr, hs, fmtfuncApply, fmtstrApply, hp, copyWithNewAtts, accL]
     | cons q r =>
       simp [callFmtfunc, hb, fmtfuncApply, fmtstrApply, hp, copyWithNewAtts, hacc]
 
-theorem chunk_eval (lower : String → String) (hl : LowerOk lower) (c : Chunk)
-    (hs : hasEscLBracket c.s = false) :
-    ∃ e v, reprPart c = some e ∧ evalExpr lower e = some v ∧ v.effCells = effCells [c] := by
-  refine ⟨_, _, ?_, eval_wrap lower c.s hs (namedAtts c.atts) (namedAtts_good hl c.atts), ?_⟩
+theorem chunk_eval (md : Nat) (lower : String → String) (hl : LowerOk lower) (c : Chunk)
+    (hs : hasEscBracket c.s = false) :
+    ∃ e v, reprPart c = some e ∧ evalExpr md lower e = some v ∧ v.effCells = effCells [c] := by
+  refine ⟨_, _, ?_, eval_wrap md lower c.s hs (namedAtts c.atts) (namedAtts_good hl c.atts), ?_⟩
   · simp [reprPart, reprNames_eq]
   · have ha := acc_eff c.atts
     by_cases he : (namedAtts c.atts).isEmpty = true
@@ -227,24 +231,33 @@ theorem valAdd_eff (x y : Val) : (valAdd x y).effCells = x.effCells ++ y.effCell
 theorem effCells_cons (c : Chunk) (f : FmtStr) : effCells (c :: f) = effCells [c] ++ effCells f := by
   simp [effCells]
 
-/-- `repr(f)` evaluates, in the fmtfuncs namespace, to a value with the same characters and formatting. -/
-theorem C19_repr (lower : String → String) (hl : LowerOk lower) (f : FmtStr) (hne : f ≠ [])
-    (hclean : ∀ c ∈ f, hasEscLBracket c.s = false) :
-    ∃ e v, reprAst f = some e ∧ evalExpr lower e = some v ∧ v.effCells = effCells f := by
-  have parts : ∀ (g : FmtStr), (∀ c ∈ g, hasEscLBracket c.s = false) →
+/-- FULL STATEMENT of the repr clause: for every FmtStr with at least one run, `repr(f)` evaluates in the fmtfuncs
+    namespace to a value with the same characters and formatting. -/
+def C19_repr_full_statement : Prop :=
+  ∀ (md : Nat) (lower : String → String), LowerOk lower → ∀ f : FmtStr, f ≠ [] →
+    ∃ e v, reprAst f = some e ∧ evalExpr md lower e = some v ∧ v.effCells = effCells f
+
+/-- PARTIAL (open finding D27): the full statement for every FmtStr whose run texts contain no `ESC [` pair.
+    A run text with `ESC [` is written into the repr as a plain literal, and `fmtstr` re-parses it as escape
+    sequences when the repr is evaluated (`C19_repr_witness`). The hypothesis is exactly the complement of that
+    footprint. -/
+theorem C19_repr_partial (md : Nat) (lower : String → String) (hl : LowerOk lower) (f : FmtStr) (hne : f ≠ [])
+    (hclean : ∀ c ∈ f, hasEscBracket c.s = false) :
+    ∃ e v, reprAst f = some e ∧ evalExpr md lower e = some v ∧ v.effCells = effCells f := by
+  have parts : ∀ (g : FmtStr), (∀ c ∈ g, hasEscBracket c.s = false) →
       ∃ es, g.mapM reprPart = some es ∧
-        ∀ e v, evalExpr lower e = some v →
-          ∃ w, evalExpr lower (plusAll e es) = some w ∧ w.effCells = v.effCells ++ effCells g := by
+        ∀ e v, evalExpr md lower e = some v →
+          ∃ w, evalExpr md lower (plusAll e es) = some w ∧ w.effCells = v.effCells ++ effCells g := by
     intro g
     induction g with
     | nil => intro _; exact ⟨[], rfl, fun e v he => ⟨v, he, by simp [effCells]⟩⟩
     | cons c g ih =>
       intro hc
       obtain ⟨es, hes, hrest⟩ := ih (fun c' h' => hc c' (List.mem_cons_of_mem _ h'))
-      obtain ⟨ec, vc, h1, h2, h3⟩ := chunk_eval lower hl c (hc c (List.mem_cons_self ..))
+      obtain ⟨ec, vc, h1, h2, h3⟩ := chunk_eval md lower hl c (hc c (List.mem_cons_self ..))
       refine ⟨ec :: es, by simp [List.mapM_cons, h1, hes], ?_⟩
       intro e v he
-      have hplus : evalExpr lower (.plus e ec) = some (valAdd v vc) := by simp [evalExpr, he, h2]
+      have hplus : evalExpr md lower (.plus e ec) = some (valAdd v vc) := by simp [evalExpr, he, h2]
       obtain ⟨w, hw1, hw2⟩ := hrest _ _ hplus
       refine ⟨w, hw1, ?_⟩
       rw [hw2, valAdd_eff, h3, effCells_cons c g, List.append_assoc]
@@ -252,11 +265,19 @@ theorem C19_repr (lower : String → String) (hl : LowerOk lower) (f : FmtStr) (
   | nil => exact absurd rfl hne
   | cons c g =>
     obtain ⟨es, hes, hrest⟩ := parts g (fun c' h' => hclean c' (List.mem_cons_of_mem _ h'))
-    obtain ⟨ec, vc, h1, h2, h3⟩ := chunk_eval lower hl c (hclean c (List.mem_cons_self ..))
+    obtain ⟨ec, vc, h1, h2, h3⟩ := chunk_eval md lower hl c (hclean c (List.mem_cons_self ..))
     obtain ⟨w, hw1, hw2⟩ := hrest ec vc h2
     refine ⟨plusAll ec es, w, ?_, hw1, ?_⟩
     · simp [reprAst, List.mapM_cons, h1, hes]
     · rw [hw2, h3, ← effCells_cons]
+
+/-- WITNESS for D27 (replayed on the real code by the harness): `FmtStr(Chunk('\x1b[31mx', {'bold': True}))` has six
+    bold characters; its repr `bold('\x1b[31mx')` evaluates to ONE character, bold and red. -/
+theorem C19_repr_witness :
+    (reprAst [⟨[Curtsies.ESC, '[', '3', '1', 'm', 'x'], { bold := some true }⟩]).bind
+        (evalExpr Generated.intMaxStrDigits idl)
+      = some (.fmt [⟨['x'], { fg := some 1, bold := some true }⟩]) := by
+  decide +kernel
 
 /-- `LowerOk` is satisfiable (the driver evaluates with this `lower`). -/
 theorem C19_lowerOk_idl : LowerOk idl := fun _ _ _ => ⟨rfl, rfl⟩
